@@ -6,7 +6,9 @@ under build/tmp-<pid>/ and must predict, for every operation, the file written a
 member names, the error raised, or the mineral returned (array elements are opaque codes
 in the model and are mapped back to the bytes of the arrays that were saved).  The two
 oracle hypotheses of the theorems (NPY round trip, zip = append-only association list with
-last-entry-wins) are checked on the files of every case."""
+last-entry-wins) are checked on the files of every case.  The stored arrays are presented in every NumPy memory layout
+(family `layout`: C / Fortran order, transposed, strided, reversed, offset, read-only, unaligned, broadcast views; see
+`present`), every save runs under argguard.guarded and the loads of that family under argguard.fresh_result_probe."""
 from __future__ import annotations
 
 import hashlib
@@ -19,6 +21,7 @@ import zipfile
 
 import numpy as np
 
+import argguard
 import common
 import proofs
 
@@ -71,6 +74,129 @@ def mk(rng, n=None, k=None, phase=None, fabric=None, regime=None):
             "orientations": [payload(rng, (n, 3, 3)) for _ in range(k)]}
 
 
+# --------------------------------------------------------------------------
+# memory layout ("presentation") of the stored arrays.  The property quantifies over float64 CONTENTS; the same contents
+# can be handed to Mineral (orientations_init / fractions_init, or snapshots appended by a driver) in any NumPy memory
+# layout: C order, Fortran order (np.asfortranarray, Fortran D-Rex `acs` reshaped with order="F"), a transposed (3, 3, n)
+# block, a slice of a larger buffer (every second grain, an (n, 3, 4) block cut to (n, 3, 3), an offset window), a reversed
+# view, a broadcast (one orientation for all grains), read-only or unaligned storage.  What is restored must not depend on it.
+# --------------------------------------------------------------------------
+LAYOUTS = ["C", "F", "T", "perm", "stride_first", "stride_last", "reversed", "offset", "readonly", "unaligned", "broadcast"]
+FILLER = np.array([0x7FF8DEADBEEF0000], dtype=np.uint64).view(np.float64)[0]      # what lies between the elements of a view
+
+
+def present(a, layout):
+    """an array with the dtype, shape and (logical) contents of `a` in the named memory layout; `broadcast` keeps only the
+    first entry along axis 0 (a stride-0 view cannot hold anything else)"""
+    a = np.array(a, dtype=np.float64, order="C")
+    s = a.shape
+    if layout == "C" or a.ndim == 0:
+        return a
+    if layout == "F":                                   # owned, column-major
+        return np.asfortranarray(a)
+    if layout == "T":                                   # view of a C-ordered block with the axes reversed
+        return np.ascontiguousarray(a.T).T
+    if layout == "perm":                                # first two axes swapped in memory: neither C nor F
+        if a.ndim < 2:
+            return present(a, "stride_first")
+        ax = (1, 0) + tuple(range(2, a.ndim))
+        return np.ascontiguousarray(a.transpose(ax)).transpose(ax)
+    if layout == "stride_first":                        # every second entry along axis 0 of a larger buffer
+        big = np.full((2 * s[0],) + s[1:], FILLER)
+        big[::2] = a
+        return big[::2]
+    if layout == "stride_last":                         # every second entry along the last axis
+        big = np.full(s[:-1] + (2 * s[-1],), FILLER)
+        big[..., ::2] = a
+        return big[..., ::2]
+    if layout == "reversed":                            # negative stride
+        return np.ascontiguousarray(a[::-1])[::-1]
+    if layout == "offset":                              # C-ordered window inside a larger buffer
+        big = np.full((s[0] + 2,) + s[1:], FILLER)
+        big[1:s[0] + 1] = a
+        return big[1:s[0] + 1]
+    if layout == "readonly":
+        a.flags.writeable = False
+        return a
+    if layout == "unaligned":                           # float64 storage at an odd address
+        buf = np.zeros(a.nbytes + 16, dtype=np.uint8)
+        for off in range(1, 9):
+            v = buf[off:off + a.nbytes].view(np.float64).reshape(s)
+            if not v.flags.aligned or a.size == 0:
+                break
+        v[...] = a
+        return v
+    if layout == "broadcast":                           # stride 0 along axis 0
+        return np.broadcast_to(a[0].copy(), s) if s[0] >= 1 else a
+    raise ValueError(layout)
+
+
+def describe(a):
+    """the memory layout of `a` as data (for replay files): strides in bytes, flags"""
+    return {"strides": [int(x) for x in a.strides], "writeable": bool(a.flags.writeable), "aligned": bool(a.flags.aligned),
+            "owndata": bool(a.flags.owndata)}
+
+
+def rebuild(logical, desc):
+    """inverse of (contents, describe): the contents `logical` in an array with the recorded strides and flags"""
+    a = np.array(logical, dtype=np.float64, order="C")
+    if not desc or a.ndim == 0 or a.size == 0:
+        return a
+    st, s = tuple(desc["strides"]), a.shape
+    lo = sum(min(0, t * (n - 1)) for t, n in zip(st, s))
+    hi = sum(max(0, t * (n - 1)) for t, n in zip(st, s)) + 8
+    if desc.get("owndata") and desc.get("aligned", True) and st == a.strides:
+        out = a
+    elif desc.get("owndata") and desc.get("aligned", True) and st == np.asfortranarray(a).strides:
+        out = np.asfortranarray(a)
+    else:
+        buf = np.zeros(hi - lo + 16, dtype=np.uint8)
+        buf[:(hi - lo + 16) // 8 * 8].view(np.float64)[:] = FILLER
+        out = None
+        for off in range(0, 9):
+            out = np.ndarray(s, dtype=np.float64, buffer=buf, offset=off - lo, strides=st)
+            if bool(out.flags.aligned) == bool(desc.get("aligned", True)):
+                break
+        out[...] = a                                    # stride-0 axes: the contents are constant along them
+    out.flags.writeable = bool(desc.get("writeable", True))
+    return out
+
+
+def layout_class(a):
+    """coarse class of the memory layout of an array (histogram key)"""
+    if a.ndim == 0 or a.size == 0:
+        return "trivial"
+    if not a.flags.aligned:
+        c = "unaligned"
+    elif any(t == 0 and n > 1 for t, n in zip(a.strides, a.shape)):
+        c = "zero-stride"
+    elif any(t < 0 and n > 1 for t, n in zip(a.strides, a.shape)):
+        c = "negative-stride"
+    elif a.flags.c_contiguous:
+        c = "C+F" if a.flags.f_contiguous else "C"
+    else:
+        c = "F" if a.flags.f_contiguous else "strided"
+    return c + ("" if a.flags.writeable else "/readonly")
+
+
+def relayout(M, field, idx, layout):
+    M[field][idx] = present(M[field][idx], layout)
+
+
+def relayout_where(M, fields, where, layout):
+    for field in fields:
+        k = len(M[field])
+        for idx in ({"first": [0], "last": [k - 1], "all": range(k)}[where] if k else []):
+            relayout(M, field, idx, layout)
+    return M
+
+
+def freeze(M):
+    """the state of M now (arrays copied): what a later load has to restore"""
+    return {k: M[k] for k in ("phase", "fabric", "regime", "n_grains")} | {
+        nm: [np.array(a, dtype=np.asarray(a).dtype, order="C") for a in M[nm]] for nm in ("fractions", "orientations")}
+
+
 def build(pyd, M):
     """a pydrex.Mineral in the state M describes (consistent or not)"""
     n = M["n_grains"]
@@ -79,6 +205,14 @@ def build(pyd, M):
             return cls(v)
         except ValueError:
             return v
+    if M.get("route") == "init" and M["fractions"] and M["orientations"]:
+        # the public route: first snapshot through fractions_init / orientations_init, later ones appended (as a driver does)
+        m = pyd.Mineral(phase=en(pyd.MineralPhase, M["phase"]), fabric=en(pyd.MineralFabric, M["fabric"]),
+                        regime=en(pyd.DeformationRegime, M["regime"]), n_grains=n,
+                        fractions_init=M["fractions"][0], orientations_init=M["orientations"][0])
+        m.fractions.extend(M["fractions"][1:])
+        m.orientations.extend(M["orientations"][1:])
+        return m
     m = pyd.Mineral(phase=en(pyd.MineralPhase, M["phase"]), fabric=en(pyd.MineralFabric, M["fabric"]),
                     regime=en(pyd.DeformationRegime, M["regime"]), n_grains=n,
                     fractions_init=np.full(max(n, 1), 1.0), orientations_init=np.zeros((max(n, 1), 3, 3)))
@@ -304,6 +438,53 @@ def gen_cases(chk, tier):
         ops = [S("big.npz", pfs[j], Ms[j]) for j in rng.permutation(8)]
         ops += [F("big.npz", pfs[j]) for j in rng.permutation(8)] + [L("big.npz", pfs[j], 7) for j in rng.permutation(8)]
         sc.append({"family": "large", "ops": ops})
+    sc += layout_cases(rng, quick)
+    return sc
+
+
+LAYOUT_FIELDS = {"fractions": ("fractions",), "orientations": ("orientations",), "both": ("fractions", "orientations")}
+SHAPE_FAULTS = ["ragged_fraction", "ragged_orientation", "last_orientation_size", "compensating_both", "first_orientation_size",
+                "counts_more_orientations", "orientation_block_n_by_9", "all_fractions_other_size"]
+
+
+def layout_cases(rng, quick, file="l.npz", family="layout"):
+    """8. memory layout of every stored array: each layout x (first / last / every snapshot) x (fractions / orientations / both)
+    x (whole file / postfix), the first snapshot alternately through the constructor (`*_init`) or assigned; archives of
+    1..8 minerals in which every array has a layout of its own; corrupt states in every layout.  `probe`: the caller
+    overwrites what a loader returned before loading again (argguard.fresh_result_probe)."""
+    sc, i = [], 0
+    for name in LAYOUTS:
+        for where in ("first", "last", "all"):
+            for fld in ("fractions", "orientations", "both"):
+                for pf in (None, distinct_postfixes(rng, 1)[0]):
+                    i += 1
+                    M = relayout_where(mk(rng, n=int(rng.integers(2, 9)), k=int(rng.integers(2, 5))), LAYOUT_FIELDS[fld], where, name)
+                    M["route"] = "init" if i % 2 else "assign"
+                    sc.append({"family": family, "probe": True, "layout": name,
+                               "ops": [S(file, pf, M), F(file, pf), L(file, pf, other_n(rng, M["n_grains"]))]})
+    for i in range(16 if quick else 120):
+        k = 1 + i % 8
+        pfs = distinct_postfixes(rng, k)
+        Ms = []
+        for _ in range(k):
+            M = mk(rng)
+            for fld in ("fractions", "orientations"):
+                for idx in range(len(M[fld])):
+                    if rng.random() < 0.7:
+                        relayout(M, fld, idx, LAYOUTS[int(rng.integers(0, len(LAYOUTS)))])
+            M["route"] = "init" if rng.random() < 0.5 else "assign"
+            Ms.append(M)
+        ops = [S(file, None, relayout_where(mk(rng), ("fractions", "orientations"), "all", LAYOUTS[i % len(LAYOUTS)]))] if i % 2 else []
+        ops += [S(file, pfs[j], Ms[j]) for j in rng.permutation(k)]
+        for j in rng.permutation(k):
+            ops += [F(file, pfs[j]), L(file, pfs[j], other_n(rng, Ms[j]["n_grains"]))]
+        ops += [F(file, None)]
+        sc.append({"family": family, "probe": i % 4 == 0, "layout": "mixed", "ops": ops})
+    for i, name in enumerate(LAYOUTS):
+        for pf in (None, "c"):
+            M = relayout_where(corrupt(rng, SHAPE_FAULTS[(i + (pf is None)) % len(SHAPE_FAULTS)]), ("fractions", "orientations"), "all", name)
+            sc.append({"family": family, "layout": name + "+corrupt",
+                       "ops": [S(file, None, mk(rng)), S(file, "keep", mk(rng)), S(file, pf, M), F(file, None), F(file, "keep")]})
     return sc
 
 
@@ -422,8 +603,12 @@ def run_impl(pyd, sc, d):
                 m = build(pyd, M)
                 with warnings.catch_warnings():
                     warnings.simplefilter("ignore")
-                    m.save(path, postfix=o["postfix"])
+                    # the model's save is a pure function of the mineral: the stored snapshots are the same after the call
+                    _, faults = argguard.guarded(lambda mm, p, q: mm.save(p, postfix=q), (m, path, o["postfix"]))
+                resid += [f"save modified the mineral it was given: {t}" for t in faults]
             except Exception as e:  # noqa: BLE001
+                resid += [f"save (raising {type(e).__name__}) modified the mineral it was given: {t}"
+                          for t in getattr(e, "argguard_faults", [])]
                 after = dir_state(d)
                 if after != before:
                     resid.append(f"save raised {type(e).__name__} but the directory changed: {sorted(set(after.items()) ^ set(before.items()))[:3]}")
@@ -470,6 +655,23 @@ def run_impl(pyd, sc, d):
                 res.append(("OK", int(m.phase), int(m.fabric), int(m.regime), int(m.n_grains),
                             [np.asarray(a) for a in m.fractions], [np.asarray(a) for a in m.orientations],
                             type(m.phase).__name__))
+                if sc.get("probe"):
+                    # what a loader returns belongs to the caller: overwritten in place, then loaded again
+                    if o["op"] == "load":
+                        def again(p, q, tn=o["target_n"]):
+                            t = target(pyd, tn)
+                            t.load(p, postfix=q)
+                            return [t.fractions, t.orientations]
+                    else:
+                        def again(p, q):
+                            t = pyd.Mineral.from_file(p, postfix=q)
+                            return [t.fractions, t.orientations]
+                    try:
+                        resid += [f"{o['op']}(postfix={o['postfix']!r}): {t}"
+                                  for t in argguard.fresh_result_probe(again, lambda p=path, q=o["postfix"]: ((p, q), {}),
+                                                                       scribble=lambda a: a.fill(-7.0))]
+                    except Exception as e2:  # noqa: BLE001
+                        resid.append(f"{o['op']}(postfix={o['postfix']!r}) succeeded once and raised {type(e2).__name__} when repeated")
             except Exception as e:  # noqa: BLE001
                 res.append(exc(e))
             if dir_state(d) != before:
@@ -547,6 +749,7 @@ def oracle(pyd, sc, d):
         tag = f"op {k} {o['op']}({o['file']!r}, postfix={o['postfix']!r})"
         if o["op"] == "save":
             M = o["mineral"]
+            saved = freeze(M)                 # the stored snapshots as they are when save is called
             before = dir_state(d)
             try:
                 with warnings.catch_warnings():
@@ -567,7 +770,7 @@ def oracle(pyd, sc, d):
                     if o["postfix"] is None:      # numpy.savez replaces the file: no claim about older postfixes
                         for key in [q for q in expect if q[0] == o["file"]]:
                             del expect[key]
-                    expect[(o["file"], o["postfix"])] = M
+                    expect[(o["file"], o["postfix"])] = saved
             continue
         try:
             if o["op"] == "load":
@@ -595,6 +798,9 @@ def oracle(pyd, sc, d):
         for nm, x, y in (("fractions", m.fractions, M["fractions"]), ("orientations", m.orientations, M["orientations"])):
             if len(x) != len(y) or not all(same_bits(a, b) for a, b in zip(x, y)):
                 fails.append(f"{tag}: {nm} are not restored bit-for-bit")
+        for a in list(m.fractions) + list(m.orientations):      # the caller owns what was returned: every later load
+            if isinstance(a, np.ndarray) and a.flags.writeable and a.dtype.kind == "f":     # must restore the saved values all the same
+                a[...] = -7.0
     return fails
 
 
@@ -618,6 +824,7 @@ def oracle_sweep(chk):
             sc.append({"family": "oracle", "ops": [S("n.npz", pf, corrupt(rng, kind))]})
     for name in ("m.npy", "m", "m.npz.bak"):
         sc.append({"family": "oracle", "ops": [S(name, "p", mk(rng)), F(name, "p"), L(name, "p", 2), F(name, None)]})
+    sc += layout_cases(rng, True, file="o.npz", family="oracle")
     return sc
 
 
@@ -661,14 +868,15 @@ def search(chk, pyd, base, extra=()):
 # --------------------------------------------------------------------------
 def enc_M(M):
     return {k: M[k] for k in ("phase", "fabric", "regime", "n_grains")} | {
-        nm: [{"shape": list(a.shape), "float64_hex": np.ascontiguousarray(a).tobytes().hex()} for a in M[nm]]
-        for nm in ("fractions", "orientations")}
+        nm: [{"shape": list(a.shape), "float64_hex": np.ascontiguousarray(a).tobytes().hex(), "layout": describe(a)} for a in M[nm]]
+        for nm in ("fractions", "orientations")} | {"route": M.get("route", "assign")}
 
 
 def dec_M(d):
     return {k: d[k] for k in ("phase", "fabric", "regime", "n_grains")} | {
-        nm: [np.frombuffer(bytes.fromhex(a["float64_hex"]), dtype=np.float64).reshape(a["shape"]).copy() for a in d[nm]]
-        for nm in ("fractions", "orientations")}
+        nm: [rebuild(np.frombuffer(bytes.fromhex(a["float64_hex"]), dtype=np.float64).reshape(a["shape"]).copy(), a.get("layout"))
+             for a in d[nm]]
+        for nm in ("fractions", "orientations")} | {"route": d.get("route", "assign")}
 
 
 def enc_sc(sc):
@@ -686,7 +894,10 @@ def brief(sc):
     for o in sc["ops"]:
         if o["op"] == "save":
             M = o["mineral"]
-            out.append(f"save({o['file']!r},{o['postfix']!r},n={M['n_grains']},snapshots={len(M['fractions'])}/{len(M['orientations'])})")
+            lay = [f"{nm}[{i}]:{layout_class(a)}" for nm in ("fractions", "orientations") for i, a in enumerate(M[nm])
+                   if layout_class(a) not in ("C", "C+F", "trivial")]
+            out.append(f"save({o['file']!r},{o['postfix']!r},n={M['n_grains']},snapshots={len(M['fractions'])}/{len(M['orientations'])}"
+                       + (",layouts=" + " ".join(lay[:6]) if lay else "") + ")")
         elif o["op"] == "load":
             out.append(f"load({o['file']!r},{o['postfix']!r},into n={o['target_n']})")
         else:
@@ -712,11 +923,20 @@ def run(chk):
                        "strings), optional whole-file save first, random save order, then from_file and load (into objects of another grain count) in three different "
                        "orders, plus whole-file loads and a never-saved postfix; (3) repeated postfixes with whole-file saves in between; (4) 15 kinds of corrupt state x "
                        "whole/postfix x fresh/existing file; (5) 12 file names without/with the .npz suffix through save and both loaders; (6) '.npy' aliasing; (7) 8 minerals "
-                       "of 50 grains x 20 snapshots. The model must predict every outcome exactly (file written, zip member list, exception class, returned mineral "
+                       "of 50 grains x 20 snapshots; (8) MEMORY LAYOUT of every stored array (the contents are what the property quantifies over, the "
+                       "layout is how the caller happens to hold them): C, Fortran order (owned / transposed view), first two axes swapped, every second entry "
+                       "along the first / the last axis of a larger buffer, reversed (negative stride), offset window, read-only, unaligned, broadcast "
+                       "(stride 0) x first / last / every snapshot x fractions / orientations / both x whole file / postfix, the first snapshot alternately "
+                       "through fractions_init / orientations_init or assigned, followed by from_file and load; archives of 1..8 minerals with an "
+                       "independent layout per array; 8 shape faults in every layout (must raise without writing). Every save runs under "
+                       "argguard.guarded (the mineral's snapshots are unchanged by the call), the loads of family 8 under argguard.fresh_result_probe (result "
+                       "overwritten by the caller, loaded again: same values). The model must predict every outcome exactly (file written, zip member list, exception class, returned mineral "
                        "bit-for-bit). distinct = distinct token encoding of the history incl. array ids and shapes + payload hash; non-trivial = at least one load returned "
                        "arrays or at least one operation raised")
     hist = chk.cov.setdefault("histogram", {"family": {}, "errors_impl": {}, "minerals_per_archive": {}, "n_grains": {}, "snapshots": {},
-                                            "meta_type_after_load": {}})
+                                            "meta_type_after_load": {}, "layout_requested": {}, "layout_of_saved_arrays": {},
+                                            "layout_of_first_orientation_snapshot": {}, "layout_save_path": {}, "construction_route": {},
+                                            "result_probes": {}})
     base = os.path.join(common.BUILD, f"tmp-{os.getpid()}")
     shutil.rmtree(base, ignore_errors=True)
     os.makedirs(base)
@@ -741,6 +961,23 @@ def run(chk):
                     hist["n_grains"]["<=" + nb] = hist["n_grains"].get("<=" + nb, 0) + 1
                     sb = str(min(20, (len(o["mineral"]["fractions"]) + 4) // 5 * 5))
                     hist["snapshots"]["<=" + sb] = hist["snapshots"].get("<=" + sb, 0) + 1
+                    classes = [nm + ":" + layout_class(a) for nm in ("fractions", "orientations") for a in o["mineral"][nm]]
+                    for c in classes:
+                        hist["layout_of_saved_arrays"][c] = hist["layout_of_saved_arrays"].get(c, 0) + 1
+                    if o["mineral"]["orientations"]:
+                        c = layout_class(o["mineral"]["orientations"][0])
+                        hist["layout_of_first_orientation_snapshot"][c] = hist["layout_of_first_orientation_snapshot"].get(c, 0) + 1
+                    if any(c.split(":")[1] not in ("C", "C+F", "trivial") for c in classes):
+                        c = "whole file" if o["postfix"] is None else "postfix"
+                        hist["layout_save_path"][c] = hist["layout_save_path"].get(c, 0) + 1
+                    c = o["mineral"].get("route", "assign")
+                    hist["construction_route"][c] = hist["construction_route"].get(c, 0) + 1
+                if "layout" in sc:
+                    hist["layout_requested"][sc["layout"]] = hist["layout_requested"].get(sc["layout"], 0) + 1
+                if sc.get("probe"):
+                    c = sum(1 for o, r in zip(sc["ops"], ires) if o["op"] != "save" and r[0] == "OK")
+                    hist["result_probes"]["loads repeated after the caller overwrote the result"] = hist["result_probes"].get(
+                        "loads repeated after the caller overwrote the result", 0) + c
                 for r in ires:
                     if r[0] == "ERR":
                         hist["errors_impl"][r[2]] = hist["errors_impl"].get(r[2], 0) + 1
@@ -751,7 +988,8 @@ def run(chk):
                 else:
                     msg = compare_one(sc, ires, decode(sc, mr[1], arrays))
                 nontrivial = any(r[0] == "ERR" or (len(r) == 8 and r[5]) for r in ires)
-                key = hashlib.sha1((repr(toks) + "".join(hashlib.sha1(np.ascontiguousarray(a).tobytes()).hexdigest() for a in arrays)).encode()).hexdigest()
+                key = hashlib.sha1((repr(toks) + "".join(hashlib.sha1(np.ascontiguousarray(a).tobytes()).hexdigest() + repr(describe(a))
+                                                         for a in arrays)).encode()).hexdigest()
                 chk.note_case(key, nontrivial=nontrivial,
                               sample={"family": sc["family"], "ops": brief(sc)[:12],
                                       "outcomes": [(r[0] if r[0] == "OK" else r[2]) for r in ires][:12]})
